@@ -7,8 +7,9 @@ Rec == ndJsonDeserialize(IOEnv.TRACE)
 VARIABLES i, r, run, nbad
 Step(e) ==
     CASE e.ev = "reset" -> RInit
-      [] e.ev = "setup" -> RSetup(r, e.fd)
-      [] e.ev = "mmap" -> RMmap(r, e.fd, e.addr, e.len)
+      [] e.ev = "setup" -> RSetupN(r, e.fd, e.need)
+      [] e.ev = "mmap" -> RMmapO(r, e.fd, e.addr, e.len, e.off)
+      [] e.ev = "crashed" -> RCrashed(r, e.where)
       [] e.ev = "drop_begin" -> RDropBegin(r)
       [] e.ev = "munmap" -> RMunmap(r, e.addr, e.len)
       [] e.ev = "close" -> RClose(r, e.fd)
